@@ -146,10 +146,12 @@ check('C08', 'exploration',
       'at 2 % (documented asymptote of the program), otherwise 1e-8 of the summed term magnitudes.',
       'TLC on Circuit.tla for weights/halves + replay of seeded load sets against independent closed forms', 'DESIGN.md 4 C08, 3.3')
 
-_sur = ('Sub-statement: the accuracy of the kernel quadrature inside psi (the 1e-4 / 1 % clauses against an independent numerical '
-        'integration) is NOT decided; a change confined to the numerics of Mininec.psi / integral_i2_i3 is invisible to this check. ')
+_sur = ('The numeric clause (1e-4 for separated pulse pairs in C02, 1 % for the near field in C04) is decided on the many-segment records and '
+        'a seeded sample of the TLC configurations by numerical integration of the true kernel (40-point Gauss-Legendre per straight piece) '
+        'on the geometry of the SPECIFICATION pulse table (measured on the unchanged tree: 2.5e-6 resp. 0.25 %); self and near terms of the '
+        'true kernel (exact-kernel branch, pulses closer than 2.5 segments) are outside the properties and only covered structurally. ')
 check('C02', 'model_checking',
-      'Structural sub-statement of C02: every entry of the matrix is the published MININEC-3 combination of potential terms (vector potential of '
+      'Structure of every entry, all pairs: every entry of the matrix is the published MININEC-3 combination of potential terms (vector potential of '
       'the two half segments of the source pulse tested along the observer pulse, scalar-potential differences of its two charged segments at '
       'the observer half-segment ends, minus the image terms over ground except for source pulses on the plane), for ALL pulse pairs. The '
       'harness replaces Mininec.psi in its own process by the exact line integral of R^2 (polynomial surrogate kernel with the three properties '
